@@ -67,6 +67,8 @@ impl FrameLog {
     pub fn find_expiration_cutoff(&self, thresh_ms: u64) -> u32 {
         let mut expiry_point = self.base_id;
         for frame in self.frames.iter() {
+            #[cfg(feature = "verif")]
+            crate::verif::tick();
             if frame.send_time_ms < thresh_ms {
                 expiry_point = expiry_point.wrapping_add(1);
             } else {
@@ -235,6 +237,11 @@ impl FrameQueue {
 
     pub fn base_id(&self) -> u32 {
         self.window.base_id
+    }
+
+    #[cfg(feature = "verif")]
+    pub fn verif_log_len(&self) -> u32 {
+        self.frame_log.len()
     }
 
     pub fn mark_rate_limited(&mut self) {
